@@ -220,6 +220,7 @@ inline int run_child(Scenario const& sc, std::vector<int> const& prefix, std::ve
   C.prefix_enabled = prefix_enabled;
   C.split_frontend_clock = sc.split_frontend_clock;
   C.sleep_advance_ns = static_cast<uint64_t>(sc.c("sleepadv_ns", 0));
+  C.dtor_yield = sc.c("dtor_yield", 0) != 0;
   C.enabled_hooks = sc.backend_preemptible ? sc.hooks : 0u;
   W.backend_options.error_notifier = [](std::string const& s) { g_world->notes.push_back(s); };
   W.backend_options.log_timestamp_ordering_grace_period = std::chrono::microseconds{0};
@@ -666,6 +667,8 @@ inline int main_entry(int argc, char** argv, std::map<std::string, ScenarioFacto
     if (r.verdict == "stall") ++stalls;
     std::vector<int> choices;
     for (auto const& p : r.trace) choices.push_back(p.chosen);
+    // a child that died did not report its trace: its schedule is the replayed prefix followed by default choices
+    if (r.trace.empty() && (r.verdict == "crash" || r.verdict == "hang")) choices = run.job.prefix;
     if (r.verdict == "violation" || r.verdict == "crash" || r.verdict == "hang")
     {
       int& cnt = viol_kinds[r.kind];
@@ -676,9 +679,23 @@ inline int main_entry(int argc, char** argv, std::map<std::string, ScenarioFacto
         Job jr;
         jr.prefix = choices;
         ChildResult again = run_sync(sc, jr);
-        if (again.verdict != r.verdict || again.kind != r.kind)
+        bool reproduced = again.verdict == r.verdict && again.kind == r.kind;
+        if (!reproduced && r.verdict == "crash")
+        {
+          // a crash of the code under test (sanitizer report, assert, signal) can depend on the allocator's state; it is a
+          // real outcome of this schedule even if a re-execution survives - try a few more times, then report it flagged
+          for (int k = 0; k < 3 && !reproduced; ++k)
+          {
+            again = run_sync(sc, jr);
+            reproduced = again.verdict == r.verdict;
+          }
+          if (!reproduced)
+            vf::J("viol").s("kind", r.kind).s("detail", r.detail + " (crash observed once; 4 re-executions of the same schedule survived: memory-state dependent)").s("scenario", name)
+              .s("cfg", cfg_str(cfg)).s("case", choices_str(choices)).s("schedule", trace_pretty(r.trace)).s("events", r.events).b("reproduced", false).emit();
+        }
+        if (!reproduced && r.verdict != "crash")
           vf::J("error").s("msg", "violation did not reproduce from its recorded schedule (" + r.verdict + "/" + r.kind + " vs " + again.verdict + "/" + again.kind + ")").emit();
-        else
+        else if (reproduced)
           vf::J("viol").s("kind", r.kind).s("detail", r.detail).s("scenario", name).s("cfg", cfg_str(cfg)).s("case", choices_str(choices))
             .s("schedule", trace_pretty(r.trace)).s("events", r.events).i("preemptions", [&] {
               int n = 0;
